@@ -246,6 +246,38 @@ theorem static_no_write_counterexample : ¬ FullStatementStaticNoWrite := by
   revert h2
   decide
 
+/-- boundary of the depth check `evm.depth > CallCreateDepth` (1024, a generated fact): an entry point
+    called at depth 1024 is not refused for depth, at depth 1025 it is, before touching anything. The
+    searcher runs a self-recursive contract on the implementation and counts exactly 1025 frames. -/
+theorem depth_limit_boundary (env : Env) (ro : Bool) (self : Addr) (kind : CallKind) (target : Addr)
+    (value : Nat) (w : World) :
+    callEnter env 1025 ro self kind target value w = .fail w .depth
+    ∧ (∀ w', callEnter env 1024 ro self kind target value w ≠ .fail w' .depth)
+    ∧ createEnter env 1025 ro self value target w = .fail w .depth
+    ∧ (∀ w', createEnter env 1024 ro self value target w ≠ .fail w' .depth) := by
+  refine ⟨by simp [callEnter, CallCreateDepth], ?_, by simp [createEnter, CallCreateDepth], ?_⟩
+  · intro w' h
+    unfold callEnter at h
+    simp only [CallCreateDepth, Nat.lt_irrefl, gt_iff_lt, ↓reduceIte] at h
+    cases kind <;> simp only at h
+    · split at h
+      · cases h
+      · split at h <;> cases h
+    · split at h <;> cases h
+    · cases h
+    · cases h
+  · intro w' h
+    unfold createEnter at h
+    simp only [CallCreateDepth, Nat.lt_irrefl, gt_iff_lt, ↓reduceIte] at h
+    by_cases h1 : (!w.canTransfer self value) = true
+    · simp only [h1, ↓reduceIte] at h; cases h
+    · simp only [h1, Bool.false_eq_true, ↓reduceIte] at h
+      by_cases h2 : env.createBumpsNonce = true
+      · simp only [h2, ↓reduceIte] at h
+        split at h <;> cases h
+      · simp only [h2, Bool.false_eq_true, ↓reduceIte] at h
+        split at h <;> cases h
+
 /-! ## The gas abstraction is sound: the clauses hold for every gas outcome -/
 
 /-- running out of gas somewhere (or failing to pay a code deposit) never introduces an AUTHCALL or a
